@@ -71,7 +71,7 @@ def make_pdf(pages: list[dict], info: dict | None = None) -> bytes:
                 y -= 14
             content += b"ET\n"
         for k, im in enumerate(pg.get("images", []), 1):
-            oid = w.add(w.stream(b"/Type /XObject /Subtype /Image /Width %d /Height %d /ColorSpace /DeviceRGB /BitsPerComponent 8 /Filter /DCTDecode" % (im["w"], im["h"]), im["data"]))
+            oid = w.add(w.stream(b"/Type /XObject /Subtype /Image /Width %d /Height %d /ColorSpace /DeviceRGB /BitsPerComponent 8 /Filter /DCTDecode" % (im["w"], im["h"]) + im.get("extra", b""), im["data"]))
             xobjs.append((b"Im%d" % k, oid))
             y -= 60
             content += b"q 50 0 0 50 50 %d cm /Im%d Do Q\n" % (max(y, 20), k)
@@ -119,7 +119,10 @@ def build_pdf(seed: int, feature: str | None = None, twin: bool = False):
             wpx, hpx = rng.randint(2, 40), rng.randint(2, 40)
             data = IMG.jpeg(wpx, hpx, rng.randrange(1 << 16))
             exp.images.append({"sha": sha1(data), "ctype": "image/jpeg", "w": wpx, "h": hpx, "unit": p + 1})
-            return {"data": data, "w": wpx, "h": hpx}
+            # optional alternate-text entries in the forms a PDF may legally (or sloppily) carry them
+            extra = rng.choice([b"", b"", b" /Alt (plain alt text)", b" /Alt (Stra\303\237e raw utf-8)", b" /Alt <FEFF00C400620063>", b" /Alt [1 2]", b" /Title (a title) /Alt ()",
+                                b" /Alt (caf\351 \237 undefined in PDFDocEncoding)", b" /TU /NameObject", b" /Alt 42"])
+            return {"data": data, "w": wpx, "h": hpx, "extra": extra}
 
         if feature == "multi-image-pages":
             if twin:
